@@ -57,7 +57,9 @@ deriving Repr
 
 def Store.has (s : Store) (c : Cid) : Bool := s.held.contains c
 def Store.isCorrupt (s : Store) (c : Cid) : Bool := s.corrupt.contains c
-def Store.isEmpty (s : Store) (c : Cid) : Bool := s.empty.contains c
+/-- the bytes the store returns for `c` are zero-length (a corrupted block's bytes are not its
+content: the harness corrupts by prepending bytes). -/
+def Store.isEmpty (s : Store) (c : Cid) : Bool := s.empty.contains c && !s.corrupt.contains c
 
 /-- graphsync.ResponseStatusCode (the ones a responder emits here; any other code as `other`). -/
 inductive Status where
